@@ -55,6 +55,15 @@ func propertyOracle(s *Spec, r *Run) []Failure {
 	if isNewton(s.Routine) {
 		return newtonOracle(s, r)
 	}
+	if isNewtonMin(s.Routine) {
+		return newtonMinOracle(s, r)
+	}
+	if isSaga(s.Routine) {
+		return sagaOracle(s, r)
+	}
+	if isBlahut(s.Routine) {
+		return blahutOracle(s, r)
+	}
 	rt := s.Routine
 	if !bitsEq(r.X0After, s.X0) {
 		fs = append(fs, Failure{rt + ".x0_written", fmt.Sprintf("caller's x0 %v became %v", s.X0, r.X0After)})
@@ -160,6 +169,8 @@ func truncSpec(s Spec, n int) (Spec, bool) {
 		t.Obj.C, t.Obj.D, t.Obj.E = cut(s.Obj.C), cut(s.Obj.D), cut(s.Obj.E)
 	case "rsys":
 		t.Obj.A, t.Obj.C, t.Obj.D = sub(s.Obj.A), cut(s.Obj.C), cut(s.Obj.D)
+	case "poly4":
+		t.Obj.A, t.Obj.B, t.Obj.C, t.Obj.D, t.Obj.E = cut(s.Obj.A), cut(s.Obj.B), cut(s.Obj.C), cut(s.Obj.D), cut(s.Obj.E)
 	}
 	t.Lo, t.Hi, t.Hess = cut(s.Lo), cut(s.Hi), sub(s.Hess)
 	return t, true
@@ -269,6 +280,21 @@ func genHuntNewton(r *Rng) Spec {
 	return s
 }
 
+func genHuntNewtonMin(r *Rng) Spec {
+	s := genNewtonMinSpec(r)
+	s.Obj.ErrAfter, s.Obj.NaNAfter, s.Obj.ErrAbove = -1, -1, 0
+	if r.Intn(4) != 0 {
+		s.MaxIt = 1000000
+	}
+	if s.Eps == 0 && r.Bool() {
+		s.Eps = 1e-6
+	}
+	if s.Mode == "Foo" {
+		s.Mode = "None"
+	}
+	return s
+}
+
 type Finding struct {
 	Site    string `json:"site"`
 	Failure string `json:"failure"`
@@ -327,6 +353,12 @@ func hunt(o Opts) {
 	for i := 0; i < o.N; i++ {
 		if i%4 == 3 {
 			consider(genHuntNewton(rng.Split()))
+		} else if i%8 == 2 {
+			consider(genHuntNewtonMin(rng.Split()))
+		} else if i%8 == 5 {
+			consider(genHuntSaga(rng.Split()))
+		} else if i%16 == 6 {
+			consider(genBlahutSpec(rng.Split()))
 		} else {
 			consider(genHuntSpec(rng.Split()))
 		}
